@@ -7,7 +7,7 @@ from bibtexparser.middlewares.enclosing import AddEnclosingMiddleware, RemoveEnc
 from bibtexparser.model import Entry, Field, ParsingFailedBlock, String
 from bibtexparser.splitter import Splitter
 
-from .. import dialect, spaces
+from .. import dialect, leak, spaces
 from ..canon import canon
 from ..engine import seq_iter, seq_shards
 
@@ -40,7 +40,7 @@ def bounds(tier):
 
 
 def shards(tier):
-    return [("harvest", s) for s in seq_shards(spaces.SIGMA_VAL, 4 if tier == "quick" else 5)] + [("specials", 0), ("ints", 0)]
+    return [("harvest", s) for s in seq_shards(spaces.SIGMA_VAL, 4 if tier == "quick" else 5)] + [("specials", 0), ("ints", 0), ("leak", 0)]
 
 
 def ref_strip(v):
@@ -257,6 +257,22 @@ def run_shard(shard, tier, acc):
                                 check_value(f.value, acc, seen)
                     elif isinstance(b, String) and isinstance(b.value, str):
                         check_value(b.value, acc, seen)
+    elif kind == "leak":
+        vals = SPECIALS + [str(x) for x in INTS] + ["{x}", '"x"', "x", "{X}", '"X"', "{1990}", "1990", '"1990"']
+
+        def mk(v, key, meta):
+            def f():
+                e = Entry("article", "k", [Field(key, v), Field("other", "{o}")])
+                if meta is not None:
+                    e.parser_metadata["removed_enclosing"] = {key: meta, "other": "{"}
+                return Library([e, String("s", v)])
+
+            return f
+
+        inputs = [mk(v, k, m) for v in vals for k in ("year", "title") for m in (None, "{", '"', "no-enclosing")]
+        leak.run(lambda: RemoveEnclosingMiddleware(allow_inplace_modification=False), inputs, acc, "RemoveEnclosing")
+        for opts in OPTIONS:
+            leak.run(lambda o=opts: AddEnclosingMiddleware(reuse_previous_enclosing=o[1], enclose_integers=o[2], default_enclosing=o[0], allow_inplace_modification=False), inputs, acc, f"AddEnclosing{opts}")
     elif kind == "specials":
         for v in SPECIALS:
             check_value(v, acc, seen)
